@@ -582,8 +582,29 @@ def _map(m, a, d):
     return OnceIter([m.call_closure(clo, [x], d) for x in _drain(it)])
 
 
+def _user_iter(m, it, d):
+    """a value of a crate-local type with its own `Iterator::next`: run that body until it yields None (bounded); the items in order"""
+    if not isinstance(it, Adt) or it.name in ("Option", "Result"):
+        return None
+    base = it.name.split("<")[0]
+    cands = [k for k, b in m.u.bodies.items() if k.endswith("as std::iter::Iterator>::next") and b.get("impl_self", "").split("<")[0] == base and not b.get("in_test_cfg")]
+    if len(cands) != 1:
+        return None
+    items = []
+    for _ in range(256):
+        r = m.run_body(m.u.bodies[cands[0]], [it], d + 1)
+        if not (isinstance(r, Adt) and r.name == "Option"):
+            raise Unsupported("next() of %s outside the model" % base)
+        if r.variant == 0:
+            return OnceIter(items)
+        items.append(r.fields[0])
+    raise Unsupported("iterator %s does not end within 256 items" % base)
+
+
 def _find(m, a, d):
     it, clo = a[0], a[1]
+    if not isinstance(it, OnceIter):
+        it = _user_iter(m, it, d) or it
     if not isinstance(it, OnceIter):
         return Opaque("find over unknown iterator")
     for x in _drain(it):
@@ -730,6 +751,41 @@ def _option_map(m, a, d):
     return Opaque("map")
 
 
+def _ok_or(m, a, d):
+    x = a[0]
+    if isinstance(x, Adt) and x.name == "Option":
+        return Adt("Result", 0, [x.fields[0]]) if x.variant == 1 else Adt("Result", 1, [a[1]])
+    return Opaque("ok_or")
+
+
+def _ok_or_else(m, a, d):
+    x = a[0]
+    if isinstance(x, Adt) and x.name == "Option":
+        return Adt("Result", 0, [x.fields[0]]) if x.variant == 1 else Adt("Result", 1, [m.call_closure(a[1], [], d)])
+    return Opaque("ok_or_else")
+
+
+def _and_then(m, a, d):
+    x = a[0]
+    if isinstance(x, Adt) and x.name == "Option":
+        return m.call_closure(a[1], [x.fields[0]], d) if x.variant == 1 else none()
+    return Opaque("and_then")
+
+
+def _option_filter(m, a, d):
+    x = a[0]
+    if isinstance(x, OnceIter):
+        return _filter(m, a, d)
+    if isinstance(x, Adt) and x.name == "Option":
+        if x.variant == 0:
+            return none()
+        r = m.call_closure(a[1], [x.fields[0]], d)
+        if not isinstance(r, int):
+            raise Unsupported("filter predicate outside the model")
+        return x if r else none()
+    return Opaque("filter")
+
+
 def _is_some_and(m, a, d):
     x = a[0]
     if isinstance(x, Adt) and x.name == "Option":
@@ -748,6 +804,8 @@ MODELS = {
     "std::option::Option::unwrap_or": _unwrap_or, "std::result::Result::unwrap_or": _unwrap_or, "std::option::Option::is_some": _is_some, "std::option::Option::is_none": _is_none,
     "std::slice::to_vec": _to_vec, "alloc::slice::to_vec": _to_vec, "core::slice::to_vec": _to_vec, "std::borrow::ToOwned::to_owned": _to_vec,
     "std::option::Option::map": _option_map, "std::option::Option::is_some_and": _is_some_and,
+    "std::option::Option::ok_or": _ok_or, "std::option::Option::ok_or_else": _ok_or_else, "std::option::Option::and_then": _and_then,
+    "std::option::Option::filter": _option_filter, "std::option::Option::as_ref": _ident, "std::option::Option::as_mut": _ident,
     "std::option::Option::copied": _ident, "std::option::Option::cloned": _ident,
     "std::ops::Try::branch": _try_branch,
     "core::slice::starts_with": _starts_with,
